@@ -749,6 +749,10 @@ def element_pools():
                     ev.append(upd.encode_evpn_route(_evpn_route(t, RDS[13 if t % 2 else 4], esi, 100, MACS[0], ip, stack)))
     for prefix, gw in (('10.1.1.0/24', '10.0.0.1'), ('0.0.0.0/0', '0.0.0.0'), ('2001:db8::/32', '2001:db8::1'), ('::/0', '::')):
         ev.append(upd.encode_evpn_route(_evpn_route(5, RDS[22], 0, 1, None, None, [10], prefix, gw)))
+    # route types the decoder has no branch for (RFC 9251 types 6-8, unassigned): framed by their length octet like any other
+    for t in (6, 7, 8, 255):
+        for ln in (0, 4, 10):
+            ev.append(bytes([t, ln]) + bytes(range(1, ln + 1)))
     out['evpn'] = ev
     fs = [{c: p.text} for c in (1, 2) for p in prefix_pool(4, (0, 1, 8, 9, 24, 32))]
     fs += [{c: '%s%d' % (op, v)} for c in FS_NUMERIC + (12,) for op, v in (('=', 0), ('>=', 255), ('<', 256), ('>', 65536), ('<=', M32))]
